@@ -6,8 +6,8 @@ The constructor stores "" as entry 0 in the StringStore but does NOT enter it in
 (`m_strings.add("")` only).  `add(s)` looks `s` up in the index; if absent it appends the string and
 gives it the index `++m_size`.  Consequence transcribed here: the first `add("")` (empty user name,
 empty tag value, empty role) creates a SECOND empty string at a fresh index ≥ 1.
-`size()` = number of entries (`m_size + 1`), not bytes (this is what `PrimitiveBlock::size()` adds up —
-DESIGN.md F12).  The `max_entries` (2^25) exception is not modelled: unreachable below 32 Mi adds.
+`size()` = number of entries (`m_size + 1`); `PrimitiveBlock::size()` used to add this up (DESIGN.md F12)
+and since fix 9b8b2e0 uses `serialized_size()` (bytes) instead.  The `max_entries` (2^25) exception is not modelled: unreachable below 32 Mi adds.
 Strings are C strings: the domain of the properties excludes NUL bytes.
 -/
 namespace Osmium.StringTable
@@ -21,6 +21,10 @@ structure Table where
 
 /-- `size()` -/
 def Table.size (t : Table) : Nat := t.added.length + 1
+
+/-- `serialized_size()` (fix 9b8b2e0): `m_bytes`, starts at 2 for the "" entry and grows by
+    `strlen + 4` (tag byte + up to 3 length bytes) with every new entry -/
+def Table.serializedSize (t : Table) : Nat := 2 + (t.added.map fun s => s.length + 4).sum
 
 /-- iteration order of `begin()..end()`: what `write_stringtable` emits -/
 def Table.strings (t : Table) : List Bytes := [] :: t.added
